@@ -51,18 +51,18 @@ Proof.
     + (* the kept child takes this node's place *)
       apply andb_true_iff in F as [F _]. apply andb_true_iff in F as [F0 F1].
       destruct keep1.
-      * destruct (IH1 false Indet 0%nat q k2 P1) as [W X]. split; [exact W | rewrite X; cbn [pexists]; exact F1].
-      * destruct (IH0 false Indet 0%nat q k2 P0) as [W X]. split; [exact W | rewrite X; cbn [pexists]; exact F0].
+      * destruct (IH1 false Indet new_idx q k2 P1) as [W X]. split; [exact W | rewrite X; cbn [pexists]; exact F1].
+      * destruct (IH0 false Indet new_idx q k2 P0) as [W X]. split; [exact W | rewrite X; cbn [pexists]; exact F0].
     + set (R1 := if keep1 then _ else _).
       assert (S1 : cwf n m (fst R1) /\ c_exists (fst R1) = keep1).
       { subst R1. destruct keep1; cbn [fst].
-        - destruct (IH1 false Indet 0%nat (q ++ [row1 p']) k2 P1) as [W X]. rewrite X, K1; auto.
+        - destruct (IH1 false Indet new_idx (q ++ [row1 p']) k2 P1) as [W X]. rewrite X, K1; auto.
         - split; [constructor | reflexivity]. }
       destruct R1 as [c1 k3]. cbn [fst] in S1. destruct S1 as [W1 X1].
       set (R0 := if keep0 then _ else _).
       assert (S0 : cwf n m (fst R0) /\ c_exists (fst R0) = keep0).
       { subst R0. destruct keep0; cbn [fst].
-        - destruct (IH0 false Indet 0%nat (q ++ [row0 p']) k3 P0) as [W X]. rewrite X, K0; auto.
+        - destruct (IH0 false Indet new_idx (q ++ [row0 p']) k3 P0) as [W X]. rewrite X, K0; auto.
         - split; [constructor | reflexivity]. }
       destruct R0 as [c0 k4]. cbn [fst] in S0. destruct S0 as [W0 X0].
       cbn [fst]. split; [ | reflexivity]. constructor; auto. rewrite X0, X1. exact KK.
